@@ -91,6 +91,64 @@ func NewLexPart(header, imports, prodList interface{}) (*LexPart, error) {
 	return lexPart, nil
 }
 
+// ExpandRegDefs replaces every reference to a regular definition in a token or ignored token pattern by a group
+// holding the definition's pattern: regular definitions are macros. (Sharing one set of lexer items per definition
+// between all places that refer to it gives wrong lexers as soon as a definition that can match more than one
+// character, or nothing, is reachable from two contexts at once, e.g. x : _r 'c' ; y : 'a' _r ; _r : 'a' 'b' ;)
+func (this *LexPart) ExpandRegDefs() error {
+	expanded := make(map[string]bool)
+	var expand func(pattern *LexPattern, path []string) error
+	expand = func(pattern *LexPattern, path []string) error {
+		for _, alt := range pattern.Alternatives {
+			for i, term := range alt.Terms {
+				switch t := term.(type) {
+				case *LexRegDefId:
+					def, defined := this.RegDefs[t.Id]
+					if !defined {
+						continue
+					}
+					for _, id := range path {
+						if id == t.Id {
+							return fmt.Errorf("recursive regular definition: %s", strings.Join(append(path, t.Id), " -> "))
+						}
+					}
+					if !expanded[t.Id] {
+						if err := expand(def.pattern, append(path, t.Id)); err != nil {
+							return err
+						}
+						expanded[t.Id] = true
+					}
+					alt.Terms[i] = &LexGroupPattern{def.pattern}
+				case *LexGroupPattern:
+					if err := expand(t.LexPattern, path); err != nil {
+						return err
+					}
+				case *LexOptPattern:
+					if err := expand(t.LexPattern, path); err != nil {
+						return err
+					}
+				case *LexRepPattern:
+					if err := expand(t.LexPattern, path); err != nil {
+						return err
+					}
+				}
+			}
+		}
+		return nil
+	}
+	for _, tok := range this.TokDefsList {
+		if err := expand(tok.pattern, nil); err != nil {
+			return err
+		}
+	}
+	for _, tok := range this.IgnoredTokDefsList {
+		if err := expand(tok.pattern, nil); err != nil {
+			return err
+		}
+	}
+	return nil
+}
+
 func (this *LexPart) StringLitTokDef(id string) *LexTokDef {
 	tokDef := this.stringLitToks[id]
 	return tokDef
